@@ -12,4 +12,5 @@ CacheIface* make_tls_cache(int capacity);     // SQUIDS_THREAD_LOCAL=thread_loca
 long cachesim_cas_count();
 void cachesim_cas_reset();
 extern int cachesim_spurious_pct;
+extern int cachesim_coarse;
 #endif
